@@ -561,3 +561,83 @@ PROPS = {
                     "'recorded dependencies = declared by the emitted text' is checked per emitted module, not proved (fill_module_dependencies belongs to C01/C08)"],
     },
 }
+
+PROPS["C10"] = {
+    "harness": "c10",
+    "props_file": "Props/C10.v",
+    "run_module": "Model.FcSummary Model.FcTransform Model.RunC10",
+    "run_fn": "run_c10",
+    "pinned_theorems": ["C10_erasedb_correct", "C10_erasedxb_correct", "C10_leavable_decided", "C10_fn_decided",
+                        "C10_param_decided", "C10_member_decided", "C10_item_decided", "C10_classes_sound",
+                        "C10_classes_none", "C10_model_erased_or_diagnostic",
+                        "C10_model_strict_outside_known_classes", "C10_model_family", "C10_model_ctor",
+                        "C10_first_error", "C10_arrow_kept_refuted", "C10_signature_no_return_type_refuted",
+                        "C10_param_property_refuted"],
+    "rule": ("three streams by case number. (corpus) every spec of tests/specs/graph/fast_check (incl. sub-directories) and "
+             "tests/specs/graph/jsr (143 worlds) is rebuilt and run exactly as the spec runner does (port of parse_spec, "
+             "fill_jsr_meta_files_with_checksums, TestLoader, WorkspaceMemberResolver; GraphKind::All build, then "
+             "build_fast_check_type_graph with the spec's cache / workspace options), followed by 6 hand-written seed packages "
+             "(one witness per known finding, two non-vacuity packages). (judged) generated JSR-style packages from an "
+             "abstract mini-TS syntax (harness/src/fcheck/pkggen.rs): 1-4 modules x 3-15 declarations (functions with "
+             "overloads, classes with constructors incl. parameter properties / methods / accessors / auto-accessors / "
+             "properties / index signatures / static blocks, public | protected | private | #private, static, decorators, "
+             "abstract; const/let/var; interfaces; aliases; enums; namespaces; default exports; export lists, re-exports, "
+             "export *, export * as; parameters ident / optional / default / rest / destructured with or without "
+             "annotation; initialisers from the leavable grammar, the simply-inferable forms and non-leavable forms; return "
+             "statements in nested control flow; 20% adversarial packages add ambient forms, using, require, global "
+             "augmentation, destructuring exports, export as namespace, expando properties), 70% served from the registry "
+             "(first diagnostic only), 30% as workspace members (all diagnostics). Every module the REAL fast check emits "
+             "is re-parsed with deno_ast, summarised (fcheck/sum.rs) and judged by the extracted, proved decision procedure "
+             "erasedb; the count of function-likes is compared as a wire check. (model) one-module packages in which every "
+             "declaration is exported: for every public function-like (function, const arrow / function expression, "
+             "constructor incl. parameter properties, method, accessor) the source summary (fcheck/srcsum.rs) is given to "
+             "the extracted MODEL of the transform, whose result - the diagnostics in raising order, or the emitted shape "
+             "(per parameter: pattern, annotation class, optional, default class tree; return annotation class; async; "
+             "generator; body shape; the synthesised property declarations of a constructor) - must equal what the real "
+             "transform did (workspace mode collects all diagnostics; emitted shapes of undiagnosed units come from a "
+             "second real run without the diagnosed declarations). The model stream starts with an EXHAUSTIVE small domain: all 3650 combinations of kind x return annotation x plain/async/generator x 10 body shapes (returns in if / if-else / loops / try / switch / nested function) x parameter lists (30 single and paired parameter forms) x arrow expression bodies, minus the syntactically impossible ones (2104 units). non-trivial = judged: some module emitted with a "
+             "function-like or class; model: some unit emitted and some unit diagnosed. quick: 12000 judged + 8000 model "
+             "packages; thorough: 300000 + 200000"),
+    "assumptions": [
+        "the property is decided on SUMMARIES of the emitted text: the SWC parser is trusted to parse what the emitter printed, and harness/src/fcheck/sum.rs is trusted to classify the AST (expression classes, placeholder recognition, body shapes); a summariser that loses a difference hides it",
+        "'literal-like' is read as the code's documented leavable grammar (DESIGN.md C10); ambient items (declaration files, declare) are passed through by design and only required to have no bodies; enum declarations are opaque (the spec corpus pins computed enum initialisers being carried over); a TS-private constructor keeps its existence with no parameters",
+        "known findings F-C10a (arrow with leavable expression body keeps body, async and no return type), F-C10b (bodyless signature without return type passes silently), F-C10c (parameter property without type becomes `declare x;`) are reported as KNOWN-FINDING; the model/implementation comparison is NOT suspended for them",
+        "the model covers the function-like fragment (transform_fn, transform_arrow, transform_function_body_block_stmt, handle_param_pat, ParamsOptionalStartIndex, maybe_transform_expr_if_leavable, maybe_infer_type_from_expr, infer_simple_type_from_type, analyze_return_stmts_in_function_body, constructor part of transform_class_member); is_overload and the set of public ranges are inputs (the tracer is not modelled here); Symbol() is recognised syntactically (the generator never shadows Symbol)",
+    ],
+    "partial": ["sub-language: the transform model covers function-likes, parameters, leavable initialisers and constructors; "
+                "classes/properties/variables/namespaces/imports are covered by the per-output judgement only",
+                "the full statement is refuted for the model (3 witnesses, F-C10a-c); proved: erased up to those classes for all "
+                "inputs, and strictly erased for sources without the three constructs"],
+}
+
+PROPS["C11"] = {
+    "harness": "c11",
+    "props_file": "Props/C11.v",
+    "run_module": "Model.FcSummary Model.FcTransform Model.RunC10 Model.RunC11",
+    "run_fn": "run_c11",
+    "pinned_theorems": ["C11_api_preservedb_correct", "C11_items_decided", "C11_item_decided", "C11_class_decided",
+                        "C11_member_decided", "C11_fn_decided", "C11_param_decided", "C11_subrel_decided",
+                        "C11_classes_sound", "C11_classes_none", "C11_paren_refuted"],
+    "rule": ("same corpus (143 spec worlds), seed packages and generated packages as C10's judged stream. For every module the "
+             "REAL fast check emitted, the original and the emitted text are summarised with one string interner (canonical "
+             "text = SWC printer output without whitespace; equal id <-> equal text). Resolved export name sets come from the "
+             "real symbol API (ModuleInfoRef::exports) on the original graph and on a SECOND real graph in which every module "
+             "with fast-check output is served with that output. Generated packages add the generator's intent: declared "
+             "names that are neither exported from an entrypoint (directly, by export list, re-export, export *, export * as) "
+             "nor reachable from such a declaration through references in annotations, heritage clauses, retained or "
+             "analysed initialisers and enum initialisers. The extracted, proved decision procedure judges four clauses per "
+             "pair: emitted exports are a subset of the original's; equal at entrypoints; every retained item matches its "
+             "original (kind, name, export form, type parameters, heritage, written annotations by text, members, modulo the "
+             "documented normalisations); no intent-dropped name is declared. The number of declared names is compared as a "
+             "wire check. non-trivial = corpus/seed pair, or generated package with both retained public names and "
+             "intent-dropped names. quick 12000 generated packages; thorough 300000"),
+    "assumptions": [
+        "export name sets are DATA computed by the real deno_graph symbol API on both sides (for the emitted side on a second graph built from the emitted texts); they are not re-derived in Coq",
+        "annotation texts are compared through SWC's printer (to_code) with whitespace removed; `T | undefined` is recognised by the harness on the AST (last union member `undefined`)",
+        "the generator's intent counts as 'referenced from the public API' also the operands of initialisers that the dependency analysis visits although the transform drops them (template operands, operands of inferred defaults): declarations kept only because of such operands are NOT reported (see the report: an over-retention of the tracer, arguably outside the statement's letter)",
+        "overload implementations, TS-private members, private constructors' parameters, #private members, static blocks, auto-accessors and parameter properties are compared up to their documented erasure (reading guide in Model/RunC11.v)",
+        "known finding F-C11a (optional/default parameter of function / constructor / conditional type before a required one loses its parentheses) is reported as KNOWN-FINDING",
+    ],
+    "partial": ["per-pair verified check only: there is no Gallina model of the tracer / of declaration retention here (C09's tracer model is not built); "
+                "'neither exported nor referenced' is checked against the generator's recorded intent for generated packages and not for the corpus"],
+}
